@@ -14,6 +14,7 @@ import (
 func init() {
 	register("C16", func(c *core.Ctx, tier string) {
 		jsonpNoBinary(c, "C16.6b")
+		jsonpSelection(c, "C16.6c")
 		v3BinaryPayloadCodec(c, "C16.10", false)
 		errPolarity(c, "C16.4b", "transports")
 		pollingEffects(c, "C16.8")
@@ -780,4 +781,79 @@ func c16ContainsHelper(c *core.Ctx) {
 	}
 	c.Check(R, "transports.acceptedCoding/whole-token-with-non-zero-weight", u.Pos(), splitComma && cutSemi && substr == "" && qPositive && okRet && okEmpty,
 		keyf("items cut at ',': %v; parameters cut at ';': %v; substring test over the header: %q; q parsed and required > 0: %v; an offered coding returned on its accepted edge: %v; \"\" otherwise: %v", splitComma, cutSemi, substr, qPositive, okRet, okEmpty))
+}
+
+// jsonpSelection — C16.6c = C02.21: who gets the JSONP variant, and what its
+// inbound side hands on (mutation audit round 4: both tests could be negated).
+func jsonpSelection(c *core.Ctx, R string) {
+	c.Rule(R, "JSONP selection and inbound wiring: PollingBuilder.New builds the JSONP transport exactly for a request that carries the j parameter (Query().Has(\"j\") true edge → NewJSONP, otherwise NewPolling); jsonp.OnData hands the form field d — and only when it is present — to the base Polling.OnData as a string buffer, and reports a body that is not a form as an error")
+	if u := c.Fn(R, "transports.(*PollingBuilder).New"); u != nil {
+		g := u.Graph()
+		hasJ := func(x *core.Unit, br core.Branch) int {
+			if br.IsCase {
+				return 0
+			}
+			ce, _ := x.AsCall(br.Cond)
+			if ce == nil || calleeNameOf(ce) != "Has" || len(ce.Args) != 1 {
+				return 0
+			}
+			if k, isC := core.ConstString(x.Info(), ce.Args[0]); isC && k == "j" {
+				return 1
+			}
+			return 0
+		}
+		okJ, okP, nJ, nP := true, true, 0, 0
+		for _, cl := range u.Calls() {
+			switch cl.Key {
+			case "transports.NewJSONP":
+				nJ++
+				okJ = okJ && g.GuardedBy(cl.Loc, hasJ)
+			case "transports.NewPolling":
+				nP++
+				okP = okP && g.GuardedBy(cl.Loc, gNot(hasJ))
+			}
+		}
+		c.Check(R, "transports.(*PollingBuilder).New/j→JSONP,else→Polling", u.Pos(), nJ == 1 && nP == 1 && okJ && okP, keyf("NewJSONP on the Has(\"j\") edge: %v (%d); NewPolling on the other: %v (%d)", okJ, nJ, okP, nP))
+	}
+	if u := c.Fn(R, "transports.(*jsonp).OnData"); u != nil {
+		g := u.Graph()
+		hasD := func(x *core.Unit, br core.Branch) int {
+			if br.IsCase {
+				return 0
+			}
+			ce, _ := x.AsCall(br.Cond)
+			if ce == nil || calleeNameOf(ce) != "Has" || len(ce.Args) != 1 {
+				return 0
+			}
+			if k, isC := core.ConstString(x.Info(), ce.Args[0]); isC && k == "d" {
+				return 1
+			}
+			return 0
+		}
+		n, ok := 0, true
+		for _, cl := range u.Calls() {
+			if cl.Name == "OnData" && cl.Recv != nil && fieldOf(u.Info(), cl.Recv) == "jsonp.Polling" {
+				n++
+				ok = ok && g.GuardedBy(cl.Loc, hasD) && g.GuardedBy(cl.Loc, gNot(gErrNonNil()))
+				// the payload derives from the d field
+				fromD := false
+				ast.Inspect(u.Body, func(nd ast.Node) bool {
+					if ce, isC := nd.(*ast.CallExpr); isC && calleeNameOf(ce) == "Get" && len(ce.Args) == 1 {
+						if k, isS := core.ConstString(u.Info(), ce.Args[0]); isS && k == "d" {
+							fromD = true
+						}
+					}
+					return true
+				})
+				ok = ok && fromD
+			}
+		}
+		perr := false
+		for _, cl := range u.Calls() {
+			if cl.Name == "OnError" && g.GuardedBy(cl.Loc, gErrNonNil()) {
+				perr = true
+			}
+		}
+		c.Check(R, "transports.(*jsonp).OnData/d-present→Polling.OnData,parse-error→OnError", u.Pos(), n == 1 && ok && perr, keyf("%d hand-over(s) to the base OnData, on the Has(\"d\") ∧ no-error edge with the d field: %v; a parse error is reported: %v", n, ok, perr))
+	}
 }
